@@ -1017,7 +1017,15 @@ class Frame:
   def e_BinOp(self, node):
     a = self.eval(node.left)
     b = self.eval(node.right)
-    return _BINOPS[type(node.op)](a, b)
+    try:
+      return _BINOPS[type(node.op)](a, b)
+    except TypeError as e:
+      c = _ctx.CUR
+      if c is not None and "unsupported operand" in str(e):
+        c.fail(f"type-error@{self.qual}#s{getattr(c, 'site', '').split('#s')[-1]}", kind="definedness",
+               detail=f"{ast.unparse(node)[:120]}: {e}")
+        raise PathEnd() from e
+      raise
 
   def e_Compare(self, node):
     left = self.eval(node.left)
